@@ -129,7 +129,66 @@ func classify(sig *types.Signature) string {
 	return cls
 }
 
+// exemptions regenerates, from the source of findIntrinsic, every string literal the function compares a package path
+// (or anything else) with: "eq" for == / switch cases, "call:<fn>" for literals passed to a call (HasPrefix, Contains...).
+func exemptions() ([]string, error) {
+	fset := token.NewFileSet()
+	f, err := parser.ParseFile(fset, filepath.Join(repoDir, "internal/pointer/intrinsics.go"), nil, 0)
+	if err != nil {
+		return nil, err
+	}
+	var out []string
+	for _, d := range f.Decls {
+		fd, ok := d.(*ast.FuncDecl)
+		if !ok || fd.Name.Name != "findIntrinsic" || fd.Body == nil {
+			continue
+		}
+		ast.Inspect(fd.Body, func(n ast.Node) bool {
+			switch x := n.(type) {
+			case *ast.BinaryExpr:
+				for _, e := range []ast.Expr{x.X, x.Y} {
+					if l, ok := e.(*ast.BasicLit); ok && l.Kind == token.STRING {
+						op := "eq"
+						if x.Op != token.EQL {
+							op = "op" + x.Op.String()
+						}
+						out = append(out, op+" "+l.Value)
+					}
+				}
+			case *ast.CaseClause:
+				for _, e := range x.List {
+					if l, ok := e.(*ast.BasicLit); ok && l.Kind == token.STRING {
+						out = append(out, "eq "+l.Value)
+					}
+				}
+			case *ast.CallExpr:
+				name := "?"
+				switch fn := x.Fun.(type) {
+				case *ast.SelectorExpr:
+					name = fn.Sel.Name
+				case *ast.Ident:
+					name = fn.Name
+				}
+				for _, e := range x.Args {
+					if l, ok := e.(*ast.BasicLit); ok && l.Kind == token.STRING {
+						out = append(out, "call:"+name+" "+l.Value)
+					}
+				}
+			}
+			return true
+		})
+	}
+	sort.Strings(out)
+	return out, nil
+}
+
 func dumpNoEffect(w *bufio.Writer, prog *ssa.Program) {
+	if ex, err := exemptions(); err == nil {
+		for _, e := range ex {
+			fmt.Fprintf(w, "EXEMPT %s\n", san(e))
+		}
+		fmt.Fprintf(w, "EXEMPTDONE %d\n", len(ex))
+	}
 	names, err := noEffectNames()
 	if err != nil {
 		fmt.Fprintf(w, "NOEFFERR %s\n", san(err.Error()))
@@ -143,7 +202,15 @@ func dumpNoEffect(w *bufio.Writer, prog *ssa.Program) {
 	var lines []string
 	for f := range ssautil.AllFunctions(prog) {
 		if want[f.String()] {
-			lines = append(lines, fmt.Sprintf("NOEFF %s %s %s", san(f.String()), classify(f.Signature), san(f.Signature.String())))
+			body := "nobody"
+			if len(f.Blocks) > 0 {
+				body = "body"
+			}
+			resptr := "res-scalar"
+			if a, _ := holdsPtr(f.Signature.Results(), map[types.Type]bool{}); a {
+				resptr = "res-pointerlike"
+			}
+			lines = append(lines, fmt.Sprintf("NOEFF %s %s %s %s %s", san(f.String()), classify(f.Signature), san(f.Signature.String()), body, resptr))
 		}
 	}
 	sort.Strings(lines)
